@@ -10,7 +10,17 @@ def condJson (c : Cond) : Json := Json.mkObj [("type", .str c.type), ("status", 
 
 def sortConds (cs : List Cond) : List Cond := cs.mergeSort (fun a b => a.type ≤ b.type)
 
+def claimHandler : Handler := fun scn =>
+  let old := (arr scn "old").map condOf
+  let xr := (arr scn "xrConds").map condOf
+  let out := claimReconcile old xr (strs scn "claimTypes")
+  let ready := statusOf out "Ready" == some "True"
+  let ok := !ready || statusOf xr "Ready" == some "True"
+  .ok (Json.mkObj [("conds", Json.arr ((sortConds out).map condJson).toArray), ("claimTypes", Json.arr #[]), ("wrote", .bool true)],
+       ok, if ok then "" else "C05:claim-ready-without-xr-ready")
+
 def handler : Handler := fun scn =>
+  if str scn "kind" == "claim" then claimHandler scn else
   let old : St := ⟨(arr scn "old").map condOf, []⟩
   let composed := (arr scn "composed").map fun j => (⟨str j "name", bool j "synced", bool j "ready"⟩ : Res)
   let explicit := match str scn "explicit" with | "true" => some true | "false" => some false | _ => none
